@@ -378,6 +378,11 @@ class PiecewiseConstantBirthDeath(Distribution):
                 > 0.0
             )
 
+            # (psi of a rho-sampled tip is replaced by one: log(0) in the branch
+            # that is not taken would poison the gradient)
+            psi_y = self.psi.gather(-1, indices_y)
+            psi_y = torch.where(is_rho_tip, torch.ones_like(psi_y), psi_y)
+
             if self.removal_probability is not None:
                 r = self.removal_probability.gather(-1, indices_y)
                 p0 = self.p0(
@@ -391,7 +396,7 @@ class PiecewiseConstantBirthDeath(Distribution):
                 log_p += torch.where(
                     is_rho_tip,
                     torch.zeros_like(y),
-                    torch.log(self.psi.gather(-1, indices_y) * (r + (1.0 - r) * p0))
+                    torch.log(psi_y * (r + (1.0 - r) * p0))
                     - self.log_q(
                         A.gather(-1, indices_y),
                         tuple(b.gather(-1, indices_y) for b in B),
@@ -403,7 +408,7 @@ class PiecewiseConstantBirthDeath(Distribution):
                 log_p += torch.where(
                     is_rho_tip,
                     torch.zeros_like(y),
-                    self.psi.log().gather(-1, indices_y)
+                    psi_y.log()
                     - self.log_q(
                         A.gather(-1, indices_y),
                         tuple(b.gather(-1, indices_y) for b in B),
